@@ -25,7 +25,9 @@ UName(i) == "u" \o ToString(i)
 IName(i) == "in" \o ToString(i)
 \* large blocks: degree vectors with many ties - a pattern of period 5, all equal, descending steps, ascending steps with zeros
 BigDegs(kk) == { [i \in 1..kk |-> Q((i * 7) % 5, 4)], [i \in 1..kk |-> Half], [i \in 1..kk |-> Q(4 - ((i \div 9) % 5), 4)],
-                 [i \in 1..kk |-> IF i % 3 = 0 THEN Zero ELSE Q(((i \div 7) % 4) + 1, 4)] }
+                 [i \in 1..kk |-> IF i % 3 = 0 THEN Zero ELSE Q(((i \div 7) % 4) + 1, 4)],
+                 \* degrees within the library's comparison tolerance (0.001) of the threshold 1/2, on both sides of it
+                 [i \in 1..kk |-> IF i % 3 = 0 THEN Q(1023, 2048) ELSE IF i % 3 = 1 THEN Q(1025, 2048) ELSE Half] }
 BigActs(c, kk) ==
   CASE c \in {"General", "Proportional"} -> Acts(c, kk)
     [] c \in {"First", "Last"} -> { a \in Acts(c, kk) : a.rules \in {1, 7, kk - 1} /\ a.threshold \in {Zero, Half} }
